@@ -39,6 +39,8 @@ def deviation_fallback_rules(cx):
 
 
 def run(cx):
+    from rules.C17 import index_of_rule
+    index_of_rule(cx)
     from rules.C02 import surf_closest_to_rule
     surf_closest_to_rule(cx)
     from rules.C03 import distance_conversion_rules
